@@ -250,7 +250,9 @@ impl<'d> BuildCtx<'d> {
                         0 => b.add_batch(Ctl0(core), ib, name, &dr),
                         1 => b.add_batch(Ctl1(core), ib, name, &dr),
                         2 => b.add_batch(Ctl2(core), ib, name, &dr),
-                        _ => b.add_batch(Ctl3(core), ib, name, &dr),
+                        3 => b.add_batch(Ctl3(core), ib, name, &dr),
+                        4 => b.add_batch(Ctl4(core), ib, name, &dr),
+                        _ => b.add_batch(Ctl5(core), ib, name, &dr),
                     })) {
                         Ok(()) => "placed".to_string(),
                         Err(p) => classify_add_panic(p),
